@@ -75,7 +75,7 @@ var inodeFullOnce sync.Once
 var inodeFullImg map[uint64][]byte
 var inodeFullDirs []string
 
-const inodeFullDisk = 1540 + 1400
+const inodeFullDisk = 1540 + 2800 // room for 32k directory entries of up to 256 bytes
 
 func buildInodeFullImage() {
 	d := NewDisk(inodeFullDisk)
